@@ -82,12 +82,39 @@ class MeshSpec:
 
     def mesh(self, subregions=None, bc="", by_cell=False):
         kw = {"cell": self.cell.tolist()} if by_cell else {"n": [int(k) for k in self.n]}
-        if self.dyadic and not by_cell and self.nd >= 2 and _HIST_RNG is not None \
-                and _HIST_RNG.random() < 0.6:
-            m = self._mesh_via_history(_HIST_RNG, subregions, bc)
+        if self.dyadic and not by_cell and _HIST_RNG is not None and _HIST_RNG.random() < 0.6:
+            m = None
+            if not subregions and (self.nd < 2 or _HIST_RNG.random() < 0.4):
+                m = self._mesh_via_region_owner(_HIST_RNG, bc)
+            elif self.nd >= 2:
+                m = self._mesh_via_history(_HIST_RNG, subregions, bc)
             if m is not None:
                 return m
         return df.Mesh(region=self.region(), bc=bc, subregions=subregions, **kw)
+
+    def _mesh_via_region_owner(self, rng, bc):
+        """The same mesh reached by changing its *region* in place after the mesh exists:
+        the mesh is built on the region scaled by 1/2 about the origin (exact on the dyadic
+        lattice), its derived quantities are read once, then the Region object - the one the
+        caller handed in, or the one ``mesh.region`` returns - is scaled back in place.  The
+        cell size of a mesh is derived from its region, never stored."""
+        n = [int(x) for x in self.n]
+        zero = [0.0] * self.nd
+        try:
+            r = df.Region(p1=(self.pmin / 2).tolist(), p2=(self.pmax / 2).tolist(), dims=self.dims,
+                          units=self.units)
+            pre = df.Mesh(region=r, n=n, bc=bc)
+            warm(pre)
+            owner = r if rng.random() < 0.5 else pre.region
+            if pre.region is not r and owner is r:
+                return None  # the mesh keeps a copy: the caller's object is not the mesh's
+            owner.scale(2, reference_point=zero, inplace=True)
+        except Exception:  # noqa: BLE001 - route not available: plain construction
+            return None
+        ok = (np.array_equal(pre.region.pmin, self.pmin) and np.array_equal(pre.region.pmax, self.pmax)
+              and list(pre.n) == n)
+        _hist_event("history.mesh.region_scaled_by_owner" if ok else "history.mesh.not_arrived")
+        return pre if ok else None
 
     def _mesh_via_history(self, rng, subregions, bc):
         """The same mesh reached through a public history: the pre-image of the mesh under
